@@ -16,6 +16,9 @@
 
 namespace verif {
 
+// budget of spurious compare_exchange_weak failures per run (declared in vshim.hpp, used by verif::atomic<T>::cas)
+int g_casfail_left = 0;
+
 namespace {
 struct LThread {
     std::thread th;
@@ -503,6 +506,7 @@ void begin(const Config& cfg)
     }
     S.replay_pos = 0;
     S.spurious_left = cfg.spurious_budget;
+    g_casfail_left = cfg.casfail_budget;
     S.names.clear();
     S.ranges.clear();
     S.autoseq.clear();
